@@ -11,10 +11,33 @@ NOT_APPLICABLE = {
     "C04": "statistical claim (expected FDP over a distribution of datasets under exchangeability): not expressible "
            "as a single-run function contract; its structural premises are decided under C01/C02/C03 (DESIGN.md 5)",
 }
-for _p in ["C03", "C15"]:
-    NOT_APPLICABLE[_p] = _PENDING
 
 CHECKS = {
+    "C15": {
+        "category": "other",
+        "text": "BOUNDED ONLY - nothing is proved for this property. picked_protein, strip_peptides and groupby_max "
+                "are chains of pandas operations (regex str.replace, merge, map, groupby/idxmax) with no loop or "
+                "arithmetic of their own; no function on the path is within the reach of the contract verifier "
+                "(DESIGN.md as-built section). Bounded stand-in: the real picked_protein / assign_confidence("
+                "proteins=...) on generated FASTA databases (subset and shared-peptide structures) and peptide "
+                "tables with modification and flanking notations, against an independent oracle of the statement. "
+                "Three bounded findings are listed in known_findings.json.",
+        "design_ref": "DESIGN.md 4.C15",
+        "note": "no deductive obligation; zero obligations is accepted for this property only because the evidence "
+                "labels it bounded",
+        "technique": "bounded stand-in only (enumerated / seeded-random small inputs through the real functions, "
+                     "independent oracle); the contract verifier does not apply to the pandas pipeline",
+    },
+    "C03": {
+        "category": "other",
+        "text": "Bounded stand-in (deductive core for the de-duplication loop under construction). Bounded: the real "
+                "assign_confidence and brew_rollup on 1-3 generated collections (spectrum multiplicity 1-3, extra "
+                "level columns, de-dup / rollup / decoys / prefixes on and off, CSV and Parquet, six chunk sizes) "
+                "against an oracle that re-derives the retained rows and the C01 q-values from the statement.",
+        "design_ref": "DESIGN.md 4.C03",
+        "note": "tie-free scores; PEP values not checked (C06)",
+        "technique": "bounded stand-in (seeded-random small inputs through the real functions, independent oracle)",
+    },
     "C10": {
         "category": "other",
         "text": "Deductive core + bounded stand-in. Proved for all inputs (unbounded): the column-chunk arithmetic "
